@@ -41,12 +41,16 @@ type c12Lane struct {
 
 type c12Scen struct {
 	CapS  int       `json:"cap_s"` // configured message_expiry in seconds, 0 = off
+	CapMs int       `json:"cap_ms,omitempty"` // overrides cap_s when set: a maximum lifetime that is not a whole number of seconds
 	Redis bool      `json:"redis,omitempty"` // session queues on the redis backend (harness RESP server)
 	Lanes []c12Lane `json:"lanes"`
 }
 
 func genC12(t *rapid.T) c12Scen {
 	s := c12Scen{CapS: rapid.SampledFrom([]int{0, 1, 2, 3600}).Draw(t, "cap"), Redis: rapid.IntRange(0, 2).Draw(t, "backend") == 0}
+	if rapid.IntRange(0, 5).Draw(t, "subsecond_cap") == 0 {
+		s.CapS, s.CapMs = 0, rapid.SampledFrom([]int{500, 800, 1500}).Draw(t, "capms")
+	}
 	n := rapid.IntRange(6, 10).Draw(t, "nlanes")
 	for i := 0; i < n; i++ {
 		l := c12Lane{Pub: rapid.SampledFrom([]string{"v5", "v5", "v3", "api"}).Draw(t, "pub"), SubV: rapid.SampledFrom([]int{4, 5, 5}).Draw(t, "subv"),
@@ -125,6 +129,13 @@ const timingMargin = 300 * time.Millisecond
 func runC12(s c12Scen, c *ev.Case) *ev.Violation {
 	cfg := fixture.BaseConfig()
 	cfg.MQTT.MessageExpiry = time.Duration(s.CapS) * time.Second
+	if s.CapMs > 0 {
+		cfg.MQTT.MessageExpiry = time.Duration(s.CapMs) * time.Millisecond
+	}
+	capSec := float64(s.CapS)
+	if s.CapMs > 0 {
+		capSec = float64(s.CapMs) / 1000
+	}
 	var mu sync.Mutex
 	type dropRec struct {
 		err error
@@ -150,16 +161,21 @@ func runC12(s c12Scen, c *ev.Case) *ev.Violation {
 		return harnessErr("start broker: %v", err)
 	}
 	defer b.Stop()
-	c.Label(fmt.Sprintf("cap_%ds", s.CapS))
+	c.Label(fmt.Sprintf("cap_%gs", capSec))
 
 	outs := runLanes(len(s.Lanes), func(i int) (o laneOut) {
 		l := s.Lanes[i]
+		if l.Mode == "blocked" && s.Redis && capSec > 0 && capSec < 1 {
+			// the message that blocks the window is subject to the maximum lifetime too; with a sub-second maximum on
+			// the redis backend it can be dropped at once (F-redis-expiry-whole-seconds): nothing would block
+			l.Mode = "offline"
+		}
 		logf := func(f string, a ...any) { o.log = append(o.log, fmt.Sprintf(f, a...)) }
 		topic := fmt.Sprintf("x/%d", i)
 		subID := fmt.Sprintf("s%d", i)
 		payload := fmt.Sprintf("L%d-msg", i)
 		fail := func(v *ev.Violation) laneOut {
-			o.v = v.With("mode", l.Mode, "pub", l.Pub, "E", l.E, "cap_s", s.CapS, "sub_v", l.SubV, "wait_ms", l.WaitMs)
+			o.v = v.With("mode", l.Mode, "pub", l.Pub, "E", l.E, "cap_s", capSec, "sub_v", l.SubV, "wait_ms", l.WaitMs)
 			return o
 		}
 		connectSub := func(clean bool, rm int) (*fixture.Client, error) {
@@ -243,8 +259,8 @@ func runC12(s c12Scen, c *ev.Case) *ev.Violation {
 		if l.E > 0 {
 			L = float64(l.E)
 		}
-		if s.CapS > 0 && float64(s.CapS) < L {
-			L = float64(s.CapS)
+		if capSec > 0 && capSec < L {
+			L = capSec
 		}
 		var t2 time.Time // earliest instant the broker could hand the message to the subscriber
 		switch l.Mode {
@@ -311,8 +327,8 @@ func runC12(s c12Scen, c *ev.Case) *ev.Violation {
 		} else {
 			wHi = dr.at.Sub(t0)
 		}
-		logf("mode=%s pub=%s E=%d cap=%d subv=%d wait in [%v,%v] lifetime=%v delivered=%v dropped=%v", l.Mode, l.Pub, l.E, s.CapS, l.SubV, wLo, wHi, L, got != nil, dropped)
-		if (l.E > 0 || s.CapS > 0) && l.WaitMs >= 400 && l.Mode != "online" {
+		logf("mode=%s pub=%s E=%d cap=%dms subv=%d wait in [%v,%v] lifetime=%v delivered=%v dropped=%v", l.Mode, l.Pub, l.E, s.CapS*1000+s.CapMs, l.SubV, wLo, wHi, L, got != nil, dropped)
+		if (l.E > 0 || capSec > 0) && l.WaitMs >= 400 && l.Mode != "online" {
 			o.nontrivial = true
 		}
 		if got != nil && l.E > 0 && l.SubV == 5 {
@@ -325,7 +341,7 @@ func runC12(s c12Scen, c *ev.Case) *ev.Violation {
 			case wLo > lifetime+timingMargin:
 				o.labels = append(o.labels, "must_expire")
 				if got != nil {
-					return fail(ev.Violf("C12.delivered-after-expiry", "message with lifetime %vs (expiry %d, cap %d) was delivered after waiting at least %v in the broker", L, l.E, s.CapS, wLo))
+					return fail(ev.Violf("C12.delivered-after-expiry", "message with lifetime %vs (expiry %d, cap %gs) was delivered after waiting at least %v in the broker", L, l.E, capSec, wLo))
 				}
 				if dr.err != queue.ErrDropExpired && dr.err != queue.ErrDropExpiredInflight {
 					return fail(ev.Violf("C12.drop-reason", "expired message reported dropped with reason %v", dr.err))
@@ -341,7 +357,7 @@ func runC12(s c12Scen, c *ev.Case) *ev.Violation {
 					break
 				}
 				if got == nil {
-					return fail(ev.Violf("C12.dropped-before-expiry", "message with lifetime %vs (expiry %d, cap %d) was dropped (%v) after waiting at most %v", L, l.E, s.CapS, dr.err, wHi))
+					return fail(ev.Violf("C12.dropped-before-expiry", "message with lifetime %vs (expiry %d, cap %gs) was dropped (%v) after waiting at most %v", L, l.E, capSec, dr.err, wHi))
 				}
 			default:
 				o.inconclusive = true
